@@ -58,7 +58,7 @@ static unsigned long spec_extensions(void) {
 }
 /* ---- library and libc by contract: a per-file record of what happened, in order */
 #define NF 2
-typedef struct { DString * buf; int step; bool header, footer, trans, accept, reject, conv; unsigned long ext; short format, lang; const char * folder; const char * trans_folder; DString * result;
+typedef struct { DString * buf; const char * buf_str; int step; bool header, footer, trans, accept, reject, conv; unsigned long ext; short format, lang; const char * folder; const char * trans_folder; DString * result;
                  const char * opened; FILE * stream; int writes; bool write_ok; int closed; } rec;
 #ifndef FMT_STR
 #define FMT_ENUM FORMAT_HTML
@@ -76,7 +76,7 @@ DString * scan_file(const char * fname) {
 	g_cur++; ASSERT(g_cur < NF && fname == g_file_names[g_cur], "(S) the files are read in command-line order, each once");
 	g_scans++; g_r[g_cur].buf = mkds(3); for (int i = 0; i < 3; i++) { char c; ASSUME(c != 0); g_r[g_cur].buf->str[i] = c; g_content[i] = c; } return g_r[g_cur].buf;
 }
-DString * stdin_buffer(void) { g_cur++; g_stdin++; ASSERT(g_cur == 0, "stdin is read once"); g_r[0].buf = mkds(3); return g_r[0].buf; }
+DString * stdin_buffer(void) { g_cur++; g_stdin++; ASSERT(g_cur == 0, "stdin is read once"); g_r[0].buf = mkds(3); g_r[0].buf_str = g_r[0].buf->str; return g_r[0].buf; }
 void mmd_prepend_mmd_header(DString * s) { rec * r = cur(); ASSERT(src_ok(r, s) && r->step == 0, "(S) header first"); r->header = true; r->step = 1; }
 void mmd_append_mmd_footer(DString * s) { rec * r = cur(); ASSERT(src_ok(r, s) && r->step == 1, "(S) then footer"); r->footer = true; r->step = 2; }
 void mmd_transclude_source(DString * s, const char * search, const char * path, short format, void * a, void * b) { rec * r = cur(); ASSERT(src_ok(r, s) && r->step <= 2 && !r->trans, "(S) then transclusion, once"); r->trans = true; r->trans_folder = search; r->step = 3; }
@@ -88,8 +88,10 @@ DString * mmd_d_string_convert_to_data(DString * source, unsigned long extension
 	r->conv = true; r->ext = extensions; r->format = format; r->lang = language; r->folder = directory;
 	IN(size_t, n); ASSUME(n <= 4); r->result = mkds(n); return r->result;
 }
+#ifndef CLI_META
 char * mmd_string_metadata_keys(const char * s) { return NULL; }
 char * mmd_string_metavalue_for_key(const char * s, const char * k) { return NULL; }
+#endif
 void token_pool_init(void) { } void token_pool_drain(void) { } void token_pool_free(void) { } void custom_seed_rand(void) { }
 static int g_unzips; static bool g_unzip_ok; static char g_unzip_path[NF][24];
 int unzip_data_to_path(const void * data, size_t size, const char * path) { rec * r = cur(); g_unzips++; g_unzip_ok = r->conv && data == (const void *)r->result->str && size == r->result->currentStringLength; for (int i = 0; i < 23; i++) { g_unzip_path[g_cur][i] = path[i]; if (!path[i]) { break; } } return 1; }
@@ -103,7 +105,8 @@ size_t fwrite(const void * p, size_t size, size_t n, FILE * f) {
 	r->write_ok = r->conv && p == (const void *)r->result->str && size * n == r->result->currentStringLength && (g_stdin_mode ? (f == g_stdout_obj || f == r->stream) : f == r->stream);
 	return n;
 }
-int fputs(const char * s, FILE * f) { if (g_cur >= 0 && g_cur < NF && g_r[g_cur].conv && s == g_r[g_cur].result->str) { g_r[g_cur].writes++; g_r[g_cur].write_ok = false; } return 0; }       /* a result written as a C string stops at its first NUL */
+static char * g_answer; static int g_puts_answer;
+int fputs(const char * s, FILE * f) { if (g_answer && s == g_answer && f == g_stdout_obj) { g_puts_answer++; } if (g_cur >= 0 && g_cur < NF && g_r[g_cur].conv && s == g_r[g_cur].result->str) { g_r[g_cur].writes++; g_r[g_cur].write_ok = false; } return 0; }       /* a result written as a C string stops at its first NUL */
 int fputc(int c, FILE * f) { return c; }
 int fclose(FILE * f) { rec * r = cur(); if (f == r->stream) { r->closed++; } return 0; }
 void perror(const char * s) { }
@@ -113,14 +116,16 @@ static void setup_options(bool batch) {
 	g_o.count = 0; g_stdout_obj = (FILE *)ALLOC(8); stdout = g_stdout_obj;
 	for (int i = 0; i < NF; i++) { g_out[i] = (FILE *)ALLOC(8); }
 }
-static bool g_fmt_given, g_o_given;
+static bool g_fmt_given, g_o_given, g_meta_on, g_extract_on;
 static void fix_controls(bool batch) {
 	g_o.count = g_o_given ? 1 : 0; if (g_o_given) { g_o_name[0] = "o.x"; }         /* main() has just stored the default "-": the parser overwrites it when -o is given */
+	for (int i = 0; i < 4; i++) { if (i < g_nstr && strcmp(g_str_name[i], "extract") == 0) { g_str[i].count = g_extract_on ? 1 : 0; g_sval[i][0] = "title"; } }
 	for (int i = 0; i < 4; i++) { if (i < g_nstr && strcmp(g_str_name[i], "to") == 0) { g_str[i].count = g_fmt_given ? 1 : 0; g_sval[i][0] = g_sval[0][0]; } }
 	/* main() has now created the option records: switch off the ones that end the run early, fix the mode */
 	for (int i = 0; i < NLIT; i++) {
 		if (i < g_nlit) {
-			if (strcmp(g_lit_name[i], "help") == 0 || strcmp(g_lit_name[i], "version") == 0 || strcmp(g_lit_name[i], "metadata-keys") == 0) { g_lit[i].count = 0; }
+			if (strcmp(g_lit_name[i], "help") == 0 || strcmp(g_lit_name[i], "version") == 0) { g_lit[i].count = 0; }
+			if (strcmp(g_lit_name[i], "metadata-keys") == 0) { g_lit[i].count = g_meta_on ? 1 : 0; }
 			if (strcmp(g_lit_name[i], "batch") == 0) { g_lit[i].count = batch ? 1 : 0; }
 		}
 	}
@@ -199,3 +204,28 @@ void h_cli_onefile(void) {
 	ASSERT(r->opened != NULL && strcmp(r->opened, "o.x") == 0 && r->writes == 1 && r->write_ok && r->closed == 1, "(O) the result goes to the -o file: opened, written once in full with fwrite, closed");
 	REACH();
 }
+/* -m (list metadata keys) and -e KEY (extract one value) on standard input: the CLI answers with what the library's string entry
+ * points answer for the text read (after the same source steps), and converts nothing */
+static int g_keys_calls, g_val_calls; static const char * g_keys_arg, * g_val_arg, * g_val_key;
+#ifdef CLI_META
+char * mmd_string_metadata_keys(const char * s) { g_keys_calls++; g_keys_arg = s; return g_answer; }
+char * mmd_string_metavalue_for_key(const char * s, const char * k) { g_val_calls++; g_val_arg = s; g_val_key = k; return g_answer; }
+void h_cli_meta(void) {
+	g_batch = false; g_stdin_mode = true; setup_options(false);
+	g_files.count = 0; g_o_name[0] = NULL;
+	IN(bool, keys); g_meta_on = keys; g_extract_on = !keys;
+	{ IN(bool, some); g_answer = some ? (char *)ALLOC(2) : NULL; if (g_answer) { g_answer[0] = 'k'; g_answer[1] = 0; } }
+	char * argv[1] = { "mmd" };
+	int rc = main(1, argv);
+	ASSERT(rc == 0 && g_stdin == 1, "stdin is read");
+	rec * r = &g_r[0];
+	ASSERT(!r->conv && r->writes == 0, "(-m / -e) nothing is converted or written as a document");
+	if (keys) {
+		ASSERT(g_keys_calls == 1 && g_val_calls == 0 && g_keys_arg == r->buf_str, "(-m) the keys are those mmd_string_metadata_keys reports for the text read");
+	} else {
+		ASSERT(g_val_calls == 1 && g_keys_calls == 0 && g_val_arg == r->buf_str && g_val_key != NULL && strcmp(g_val_key, "title") == 0, "(-e KEY) the value is the one mmd_string_metavalue_for_key reports for the text read and the key given");
+	}
+	ASSERT(g_puts_answer == (g_answer ? 1 : 0), "(-m / -e) the library's answer is printed to stdout, once, iff there is one");
+	REACH();
+}
+#endif
